@@ -18,7 +18,8 @@ class Contract:
     def __init__(self, key, inst=None, requires="True", returns="True", raises=(), may_raise=(),
                  modifies=(), calls=None, invariants=None, props=(), kinds=None, result_kind=None,
                  result_cls=None, ghost=None, idempotent_writes=(), note="", assume=(), trusted=False,
-                 comp_invariants=None, bounded_only=False, decreases=None):
+                 comp_invariants=None, bounded_only=False, decreases=None, lemmas=()):
+        self.lemmas = list(lemmas)
         self.key = key
         self.inst = inst
         self.requires = requires
@@ -203,6 +204,8 @@ class SpecEval:
             return t if isinstance(op, ast.Eq) else Not(t)
         if isinstance(op, (ast.Is, ast.IsNot)):
             t = Eq(asV(a), asV(b))
+            if a.kind in ("list", "tuple", "dict") or b.kind in ("list", "tuple", "dict"):
+                self.e.ext_instance(asV(a), asV(b))
             return t if isinstance(op, ast.Is) else Not(t)
         if isinstance(op, (ast.In, ast.NotIn)):
             if b.kind == "dict" and a.sort in ("S",):
